@@ -105,6 +105,13 @@ Universe_C05 ==
      lin \in {"none", "ub"}, nl \in {"none", "nlc_ub", "dict_eq"},
      opt \in {"fev1", "fev_nptm1", "fev_npt", "fev_nptp1", "fev_nptp2", "fev_3npt",
               "iter1", "iter2", "iter5", "npt_min", "npt_max", "hist1", "hist2", "default"}}
+  \cup  \* every budget just above the number of interpolation points: some iteration evaluates twice
+  {D(n, Const(n, bpk), x0, FALSE, obj, NoFault, "none", nl, "Bounds", opt, NoCb) :
+     n \in {2, 3}, bpk \in {"free", "wide"}, x0 \in {"inside", "far"}, obj \in {"rosen", "nonsmooth", "cubic"},
+     nl \in {"none", "nlc_ub", "sin_eq", "circle_eq"},
+     opt \in {"fev_p3", "fev_p4", "fev_p5", "fev_p6", "fev_p7", "fev_p8", "fev_p9", "fev_p10", "fev_p11",
+              "fev_p12", "fev_p13", "fev_p14", "fev_p15", "fev_p16", "fev_p17", "fev_p18", "fev_p19",
+              "fev_p20", "fev_p21", "fev_p22"}}
   \cup  \* runs that end before the sampling: the single evaluation of the result assembly
   {D(n, bp, "inside", sc, obj, NoFault, lin, nl, "Bounds", opt, cb) :
      n \in {1, 2}, bp \in UNION {{Const(m, "fixed"), [i \in 1..m |-> IF i = 1 THEN "bad" ELSE "wide"]} : m \in {1, 2}},
